@@ -257,9 +257,9 @@ func genInterp(g *vlib.G) {
 	// All knot words up to the tier's length over both spacing alphabets; one case = one knot set,
 	// run through every interpolator and FitWithDerivatives.
 	for ai, ss := range knotAlphabets {
-		maxM := vlib.Pick(g, 10, 12)
+		maxM := vlib.Pick(g, 9, 12)
 		if ai == 1 {
-			maxM = vlib.Pick(g, 10, 11)
+			maxM = vlib.Pick(g, 9, 11)
 		}
 		for m := 1; m <= maxM; m++ {
 			for code := 0; code < pow3(m); code++ {
@@ -654,8 +654,9 @@ func genInterpAllY(g *vlib.G) {
 	for ai, ss := range knotAlphabets {
 		maxM := vlib.Pick(g, 6, 7)
 		if ai == 1 {
-			maxM = vlib.Pick(g, 6, 7)
+			maxM = vlib.Pick(g, 5, 7)
 		}
+		maxM4 := vlib.Pick(g, 4, 6) // four-value alphabet
 		for m := 1; m <= maxM; m++ {
 			for code := 0; code < pow3(m); code++ {
 				_, name, _ := knotsFromCode(ss, code, m)
@@ -673,7 +674,7 @@ func genInterpAllY(g *vlib.G) {
 					}
 				})
 				// A second value alphabet with a negative value (sign changes), one knot fewer.
-				if m <= maxM-1 {
+				if m <= maxM4 {
 					g.Case("all-y4 "+ss.name+" "+name, func(t *vlib.T) {
 						xs, _, _ := knotsFromCode(ss, code, m)
 						t.Nontrivial()
